@@ -458,6 +458,57 @@ class Live:
           break
     return o, cont, None
 
+PROBE = 3
+
+def _probe_live(self, c):
+  """The uninterrupted instance at crash point c (the run is replayed up to there: it is deterministic inside the
+  bootstrap window), asked for its next PROBE proposals: indices of initial individuals, -9 at the first
+  proposal that is not one or that raises."""
+  import random as _random
+  case, space, cfg = self.case, self.space, self.cfg
+  _random.seed(json.dumps(case, sort_keys=True))
+  alg = self.fresh()
+  hist = []; ptr = 0
+  for e in case['sched'][:c]:
+    if e == 'p':
+      hist.append([alg.propose(), False])
+    else:
+      while ptr < len(hist) and hist[ptr][1]:
+        ptr += 1
+      if ptr < len(hist):
+        if e == 'x':
+          hist[ptr][1] = True
+        else:
+          alg.feedback(hist[ptr][0], reward_value(case, space, cfg, hist[ptr][0]))
+        ptr += 1
+  out = []
+  for _ in range(PROBE):
+    try:
+      d = alg.propose()
+    except Exception:
+      out.append(-9); break
+    if d.metadata.get('initial_population') is True:
+      out.append(space.idx(d))
+    else:
+      out.append(-9); break
+  return out
+
+def obs_initialized(o):
+  if o[4]:
+    return o[4][0] == 1
+  if len(o[5]) == 1:
+    return obs_initialized(o[5][0])
+  return False
+
+def init_stream(cfg, space, n):
+  """The first n proposals of a seeded Random / Sweeping initialiser (None for other initialisers)."""
+  ic = init_cfg(cfg)
+  if ic[0] == 'sweep':
+    return list(range(min(n, space.m)))
+  if ic[0] == 'rand' and ic[1] is not None:
+    return draws(space, ic[1], n)
+  return None
+
 def _recover_in_parts(self, history_json, cut):
   p = pg()
   alg = self.fresh()
@@ -469,6 +520,7 @@ def _recover_in_parts(self, history_json, cut):
     return [-2, err_code(ex)], '%s: %s' % (type(ex).__name__, str(ex)[:200])
   return observe(self.space, self.cfg, alg), None
 Live.recover_in_parts = _recover_in_parts
+Live.probe_live = _probe_live
 
 def cfg_evo(cfg):
   while cfg[0] == 'dedup':
@@ -566,6 +618,12 @@ def evaluate_case(case, lv=None):
       lcont = list(P[k:k + CONT])
       if len(lcont) < CONT and res['terminal'] is not None:
         lcont.append(-1 - res['terminal'][1])
+    flags = res['initial_flags']
+    in_flight = [j for j in range(k) if flags[j] and js_reward(hjson, j) is None]
+    window = (not det) and deterministic_init(cfg) and not obs_initialized(lobs) and bool(in_flight)
+    if window:
+      # inside the bootstrap window with rewards missing: the uninterrupted instance is asked for its next proposals too
+      lcont = lv.probe_live(c)
     ptm = []
     if hp is not None:
       pobs, _, perr = lv.recover(hp, None, False)
@@ -601,19 +659,30 @@ def evaluate_case(case, lv=None):
     elif det and lcont != rcont:
       hits.append(('C15/continuation/%s' % sh, '%s continues with %s after recovery, the uninterrupted run with %s (crash point %d)' % (sh, rcont, lcont, c), c))
     elif not det and is_evo(cfg) and deterministic_init(cfg):
-      # the initial population comes from a seeded generator: when no initial individual is in flight, the recovered
-      # algorithm must go on with the initial individuals the uninterrupted run proposes next
-      flags = res['initial_flags']
-      expected = []
-      for j in range(k, min(k + CONT, len(P))):
-        if not flags[j]:
-          break
-        expected.append(P[j])
-      in_flight = any(flags[j] and js_reward(hjson, j) is None for j in range(k))
       got = [x for x in rcont if x != -9]
-      if expected and not in_flight and got[:len(expected)] != expected:
-        hits.append(('C15/initial-population-continuation/%s' % sh,
-                     '%s goes on with the initial individuals %s after recovery, the uninterrupted run with %s (crash point %d of schedule %s)' % (sh, got, expected, c, ''.join(sched)), c))
+      if window:
+        # kind (bootstrap vs evolved) and not raising: what the uninterrupted instance proposes next are initial
+        # individuals; the recovered one must propose as many of them
+        lgot = [x for x in lcont if x != -9]
+        if len(got[:PROBE]) < len(lgot):
+          what = 'raises or proposes an evolved individual' if not got else 'stops proposing initial individuals after %d' % len(got)
+          hits.append(('C15/bootstrap-continuation/kind/%s' % sh,
+                       '%s: with %d initial individual(s) in flight the uninterrupted run goes on with %d more initial individuals, the recovered instance %s (crash point %d of schedule %s)'
+                       % (sh, len(in_flight), len(lgot), what, c, ''.join(sched)), c))
+          continue
+      # the DNAs: the initialiser's proposals are a function of its seed: the recovered instance must go on inside the
+      # stream somewhere between the last rewarded and the last proposed initial individual (it may propose in-flight
+      # ones again, but neither evaluated ones nor skip any); with nothing in flight: exactly where the run was
+      n_prop = sum(1 for j in range(k) if flags[j])
+      n_rew = n_prop - len(in_flight)
+      stream = init_stream(cfg, space, n_prop + CONT + 2)
+      live_goes_on = (window and any(x != -9 for x in lcont)) or (not in_flight and k < len(P) and flags[k] and not obs_initialized(lobs))
+      if stream is not None and got and live_goes_on:
+        ok = any(stream[p_:p_ + len(got)] == got[:max(0, len(stream) - p_)] for p_ in range(n_rew, n_prop + 1))
+        if not ok:
+          hits.append(('C15/initial-population-continuation/%s' % sh,
+                       '%s goes on with the initial individuals %s after recovery; the initialiser stream is %s, %d of its individuals were proposed and %d fed back (crash point %d of schedule %s)'
+                       % (sh, got, stream, n_prop, n_rew, c, ''.join(sched)), c))
   live = res['live']
   allobs = [o[0] for o in outs]
   def walk(o):
@@ -733,7 +802,7 @@ def random_need(alg, extra=0):
   """How many PRNG draws the model may ask of each seeded Random inside the algorithm."""
   p = pg(); e = evo()
   if isinstance(alg, p.geno.Deduping):
-    return random_need(alg.generator, extra + alg.max_proposal_attempts)
+    return random_need(alg.generator, extra + (CONT + 1) * alg.max_proposal_attempts)    # every continuation proposal may use up all attempts
   if isinstance(alg, e.Evolution):
     return random_need(alg._init_population_generator, extra)
   return alg.num_proposals + extra + 8
